@@ -47,7 +47,7 @@ func uvar(body []byte) []byte {
 }
 
 // carrier types the harness framer can hand to the format codec's read side.
-var carrierNames = []string{"bytes", "byteslices", "string", "bytes.Buffer", "bytes.Reader", "strings.Reader", "plain-reader", "bufio-over-bytes.Reader", "bufio-over-plain-reader"}
+var carrierNames = []string{"bytes", "byteslices", "string", "bytes.Buffer", "bytes.Reader", "strings.Reader", "plain-reader", "bufio-over-bytes.Reader", "bufio-over-plain-reader", "bytes-reused-buffer", "bytes.Buffer-reused"}
 
 var frameCfgs = func() []frameCfg {
 	l := []frameCfg{
@@ -90,7 +90,13 @@ func (p plainReader) Read(b []byte) (int, error) { return p.r.Read(b) }
 // prefix) whose decoder hands the complete body upwards as a chosen carrier
 // type, so that the format codecs are driven with every message type their
 // read side accepts.
-type carrierFramer struct{ mode int }
+type carrierFramer struct {
+	mode int
+	// modes 9/10 hand the body upwards in a buffer the framer reuses for the next frame (what the
+	// shipped PacketCodec does with its single bytes.Buffer): a delivered value must not alias it.
+	reuse []byte
+	bb    bytes.Buffer
+}
 
 func (f *carrierFramer) HandleRead(ctx netty.InboundContext, message netty.Message) {
 	r, ok := message.(io.Reader)
@@ -101,9 +107,31 @@ func (f *carrierFramer) HandleRead(ctx netty.InboundContext, message netty.Messa
 	if _, err := io.ReadFull(r, hdr[:]); err != nil {
 		panic(err)
 	}
-	body := make([]byte, binary.BigEndian.Uint32(hdr[:]))
+	n := int(binary.BigEndian.Uint32(hdr[:]))
+	var body []byte
+	if f.mode >= 9 {
+		if cap(f.reuse) < n {
+			f.reuse = make([]byte, 0, 2*n+64)
+		}
+		body = f.reuse[:n]
+	} else {
+		body = make([]byte, n)
+	}
 	if _, err := io.ReadFull(r, body); err != nil {
 		panic(err)
+	}
+	switch f.mode {
+	case 9:
+		ctx.HandleRead(body)
+		return
+	case 10:
+		f.bb.Reset()
+		f.bb.Write(body)
+		for i := range body {
+			body[i] = 0xEE
+		}
+		ctx.HandleRead(&f.bb)
+		return
 	}
 	switch f.mode {
 	case 0:
